@@ -24,6 +24,7 @@ import (
 	"errors"
 	"flag"
 	"fmt"
+	"math"
 	"os"
 	"path/filepath"
 	"sort"
@@ -279,6 +280,16 @@ func newPool(root string, r *hx.Rng, G int64) (*pool, error) {
 		}
 		p.shards = append(p.shards, &poolShard{sid: sid, endRel: endRel, idx: true})
 	}
+	// a shard group that ends near the end of the int64 nanosecond range (year ~2248)
+	{
+		sid := uint64(7)
+		w.addGroup(7, farEnd-G, farEnd, []uint32{0}, sid, false, nil)
+		if _, err := w.load(sid); err != nil {
+			w.close()
+			return nil, err
+		}
+		p.shards = append(p.shards, &poolShard{sid: sid, endRel: farEnd, idx: true})
+	}
 	// two shard objects without an index builder (what a closing shard looks like to
 	// UpdateShardDurationInfo): their duration is whatever they were created with.
 	for k := 0; k < 2; k++ {
@@ -304,7 +315,7 @@ func newPool(root string, r *hx.Rng, G int64) (*pool, error) {
 func pickDur(r *hx.Rng, endRel, G int64) int64 {
 	d := pickDurRaw(r, endRel, G)
 	// never inside the margin around the expiry instant (and not accidentally 0)
-	for d != 0 && abs(endRel+d) < margin {
+	for d != 0 && abs(addSat(endRel, d)) < margin {
 		d += margin
 		if d == 0 {
 			d += margin
@@ -315,11 +326,13 @@ func pickDur(r *hx.Rng, endRel, G int64) int64 {
 
 func pickDurRaw(r *hx.Rng, endRel, G int64) int64 {
 	switch k := r.Intn(100); {
-	case k < 18:
+	case k < 16:
 		return 0
 	case k < 24:
-		return int64(r.Intn(1000)+1) * hour * 24 // years
+		return extremeDurs[r.Intn(len(extremeDurs))]
 	case k < 28:
+		return int64(r.Intn(1000)+1) * hour * 24 // years
+	case k < 31:
 		return -int64(r.Intn(100)+1) * hour // negative durations are not rejected by the code
 	}
 	ds := append([]int64{G, 2 * G}, deltas...)
@@ -334,7 +347,7 @@ func pickDurRaw(r *hx.Rng, endRel, G int64) int64 {
 	return d
 }
 
-func specExpired(d, rel int64) bool { return d != 0 && rel+d < 0 }
+func specExpired(d, rel int64) bool { return d != 0 && addSat(rel, d) < 0 }
 
 // runTuples: cases come in batches that share one pool of real shards. A batch is emitted
 // only if it finished while the pool was younger than maxAge; otherwise it is redone from the
@@ -427,6 +440,9 @@ func tupleBatch(root string, r *hx.Rng, k int) (out []emitted, st map[string]int
 			rel := -int64(cr.Intn(4)) * G
 			if cr.Chance(30) {
 				rel = int64(cr.Intn(3)) * G
+			}
+			if cr.Chance(8) {
+				rel = farEnd
 			}
 			nils = append(nils, nilE{sid, pickDur(cr, rel, G), rel})
 		}
@@ -541,9 +557,11 @@ func tupleBatch(root string, r *hx.Rng, k int) (out []emitted, st map[string]int
 				st["tuple.isx.unlimited"]++
 			case ps.d < 0:
 				st["tuple.isx.negative"]++
-			case abs(ps.endRel+ps.d) <= 3*sec:
+			case ps.d >= 36500*day:
+				st["tuple.isx.century-or-more"]++
+			case abs(addSat(ps.endRel, ps.d)) <= 3*sec:
 				st["tuple.isx.within3s"]++
-			case abs(ps.endRel+ps.d) <= hour:
+			case abs(addSat(ps.endRel, ps.d)) <= hour:
 				st["tuple.isx.within1h"]++
 			default:
 				st["tuple.isx.far"]++
@@ -552,6 +570,29 @@ func tupleBatch(root string, r *hx.Rng, k int) (out []emitted, st map[string]int
 	}
 	return out, st, nil
 }
+
+// addSat adds two int64 values and saturates instead of wrapping (the generators and the oracle
+// work with durations up to the time.Duration maximum and ends up to the year 2262).
+func addSat(a, b int64) int64 {
+	c := a + b
+	if a > 0 && b > 0 && c < 0 {
+		return math.MaxInt64
+	}
+	if a < 0 && b < 0 && c >= 0 {
+		return math.MinInt64
+	}
+	return c
+}
+
+const (
+	day      = 24 * hour
+	farEnd   = int64(7_000_000_000_000_000_000) // a shard group that ends about 221 years from now (before 2262-04-11)
+	maxDurNs = int64(math.MaxInt64)
+)
+
+// extremeDurs: 1 ns, an hour minus / plus 1 ns, 100 years, the "keep forever" idioms, the
+// time.Duration maximum.
+var extremeDurs = []int64{1, hour - 1, hour + 1, 36500 * day, 86000 * day, 99999 * day, 106751 * day, maxDurNs}
 
 func abs(x int64) int64 {
 	if x < 0 {
@@ -1362,6 +1403,25 @@ func Run(c *hx.Ctx) error {
 	root := filepath.Join(os.Getenv("VERIF_SCRATCH"), fmt.Sprintf("c14data-%d", os.Getpid()))
 	if os.Getenv("VERIF_SCRATCH") == "" {
 		root = filepath.Join("/var/tmp", fmt.Sprintf("c14data-%d", os.Getpid()))
+	}
+	// the worlds are small and short-lived, and creating / removing their directory trees is what
+	// the run spends its time on when the disk is busy: keep them on tmpfs when there is one
+	if st, err := os.Stat("/dev/shm"); err == nil && st.IsDir() {
+		if old, _ := filepath.Glob("/dev/shm/verif-c14-*"); len(old) > 0 {
+			for _, d := range old {
+				// left behind by an earlier run (worlds with a closed shard are not removed while their
+				// process lives: background goroutines of the index still look at the directories)
+				if pid, err := strconv.Atoi(strings.TrimPrefix(filepath.Base(d), "verif-c14-")); err == nil {
+					if _, err := os.Stat(fmt.Sprintf("/proc/%d", pid)); err != nil {
+						_ = os.RemoveAll(d)
+					}
+				}
+			}
+		}
+		shm := fmt.Sprintf("/dev/shm/verif-c14-%d", os.Getpid())
+		if err := os.MkdirAll(shm, 0o755); err == nil {
+			root = shm
+		}
 	}
 	_ = os.RemoveAll(root)
 	n := c.Budget(600, 60000)
